@@ -42,6 +42,9 @@ def gen_comment(rng):
         free = ""
         if rng.random() < 0.4:
             free = "".join(rng.choice(ROUGH.replace(":", "")) for _ in range(rng.choice([1, 3, 8]))) + " "
+            if rng.random() < 0.4:
+                # a stray colon in the free text (no word directly before it): it opens a field with an empty name, which the next key closes
+                free = free + rng.choice([" : ", "): ", " :", "; : "]) + "".join(rng.choice(ROUGH.replace(":", "")) for _ in range(rng.choice([0, 2, 6]))) + " "
             if free.strip() and free.strip()[-1] in WORD:
                 free = free + ". "
         text = free + "".join(f"{k}: {v} " for k, v in kvs)
